@@ -519,6 +519,18 @@ func ruleC13R6(c *Ctx) {
 		if errv != nil && neverNilError(errv) {
 			continue // a failure: the time value is not used (C13.R2)
 		}
+		if errv != nil {
+			// `if err != nil { return time.Now(), err }`: the return is only reached through the non-nil edge of its error
+			failure := false
+			for b, si := range nilEdges(errv, false) {
+				if c.onlyViaEdge(fn, rv.At, b, si) {
+					failure = true
+				}
+			}
+			if failure {
+				continue
+			}
+		}
 		n++
 		cl, ok := strip(rv.Val).(*ssa.Call)
 		isDate := ok && cl.Common().StaticCallee() != nil && extName(cl.Common().StaticCallee()) == "time.Date"
